@@ -377,10 +377,10 @@ int main(int argc, char** argv) {
       { std::lock_guard<std::mutex> g(g_pidm); g_pids.clear(); }
       struct timespec t0; clock_gettime(CLOCK_MONOTONIC, &t0);
       if (cancel_us >= 0) canceller = std::thread([=, &returned]() {
-        usleep(cancel_us); g_cancel_sent = true; ev("cancel-sent thread"); g_engine->cancelBuild();
+        usleep(cancel_us); g_cancel_sent = true; g_engine->cancelBuild();     // (no event line: the build may already be over)
         if (watchdog_ms >= 0) {
           for (long w = 0; w < watchdog_ms && !returned; w += 10) usleep(10000);
-          if (!returned) { ev("WATCHDOG build() did not return within %ld ms of cancelBuild()", watchdog_ms);
+          if (!returned) { { std::lock_guard<std::mutex> g(g_out); printf("WATCHDOG build() did not return within %ld ms of cancelBuild()\n", watchdog_ms); }
             std::lock_guard<std::mutex> g(g_pidm); for (long pid : g_pids) kill((pid_t)pid, SIGKILL); }
         }
       });
